@@ -266,7 +266,8 @@ Proof.
     assert (P0 : cnt (is_p (e_dst e)) t = O) by (pose proof (cnt_mono _ _ t (is_p_d (e_dst e))); lia).
     match goal with |- context [if ?c then Ok (t, false) else _] => destruct c end; intros H; inversion H; subst; [split; assumption|].
     apply Hins; [rewrite N0|rewrite P0]; destruct (is_np _ e), (is_p _ e); lia.
-  - match goal with |- context [match ?f with Some _ => _ | None => _ end] => destruct f as [i|] eqn:Hf end.
+  - match goal with |- context [if ?b then Ok (t, false) else _] => destruct b end; [intros H; inversion H; subst; split; assumption|].
+    match goal with |- context [match ?f with Some _ => _ | None => _ end] => destruct f as [i|] eqn:Hf end.
     + (* the same route is already there: replaced *)
       intros H. inversion H; subst.
       destruct (find_eq_some _ _ _ _ Hf) as (x & Hx & Req & Hsi).
@@ -433,7 +434,8 @@ Proof.
     - exists y. split; [apply sort_section_in; [lia|exact Hin]|auto]. }
   destruct (Nat.leb_spec en s) as [Hle|Hgt].
   - match goal with |- context [if ?c then Ok (t, false) else _] => destruct c end; intros H; inversion H; subst; [exists y; auto|apply Hkeep_ins].
-  - match goal with |- context [match ?f with Some _ => _ | None => _ end] => destruct f as [i|] eqn:Hf end.
+  - match goal with |- context [if ?b then Ok (t, false) else _] => destruct b end; [intros H; inversion H; subst; exists y; auto|].
+    match goal with |- context [match ?f with Some _ => _ | None => _ end] => destruct f as [i|] eqn:Hf end.
     + intros H. inversion H; subst.
       destruct (find_eq_some _ _ _ _ Hf) as (x & Hx & Req & Hsi).
       pose proof (find_eq_range _ _ _ _ Hf) as Hr. rewrite firstn_length, skipn_length in Hr.
